@@ -322,7 +322,7 @@ def run(ctx):
 
     # ---------------------------------------------------------------- replay
     # stratified: every kind; every bound kind, floating set, constraint kind at least once
-    budget = 9 if quick else 36
+    budget = 9 if quick else 32
     chosen = choose(scenarios, rng, budget, quick)
     npoints = 1 if quick else 2
     stats = {"scenarios": 0, "points": 0, "fd_checks": 0, "ill_conditioned": 0, "identities": 0, "max_fd_rel": 0.0}
